@@ -5,6 +5,7 @@ cd /verif
 mkdir -p work evidence .cache/numba coq/gen
 /venv/bin/python tools/py2coq/effects.py /repo/fteikpy coq/gen/Effects.v
 /venv/bin/python tools/py2coq/apigen.py --pkg /repo/fteikpy --out coq/gen || echo "apigen reported a failure (checks will report it)"
+/venv/bin/python tools/py2coq/iogen.py --pkg /repo/fteikpy --out coq/gen || echo "iogen reported a failure (checks will report it)"
 /venv/bin/python tools/py2coq/py2coq.py --pkg /repo/fteikpy --out coq/gen || echo "translator reported failures (checks will report them)"
 cd coq
 coq_makefile -f _CoqProject -o Makefile >/dev/null 2>&1
